@@ -54,13 +54,38 @@ def stats(pg, coal, cfg, c):
            ('q50', 1, float(th.quantile(0.5)))]
     if cfg.get('loci', 1) == 1 and sum(cfg['n'].values()) <= 5:
         out.append(('sfs.mean', 1, [float(x) for x in coal.sfs.mean.data]))
-        out.append(('sfs.corr', 0, [float(x) for x in np.array(coal.sfs.corr.data).ravel()]))
+        # a correlation is defined only where both variances are positive: entries whose variance is zero on the raw scale
+        # (var <= 1e-9 * E[x^2], e.g. a count that is deterministic because no coalescence is possible before the end time)
+        # are 0/0 in exact arithmetic and rounding noise in floats -> NaN = "not compared"
+        corr = np.array(coal.sfs.corr.data, dtype=float)
+        var, mean = np.array(coal.sfs.var.data, dtype=float), np.array(coal.sfs.mean.data, dtype=float)
+        undef = var <= 1e-9 * (np.abs(var) + mean ** 2)
+        corr[undef, :] = np.nan; corr[:, undef] = np.nan
+        out.append(('sfs.corr', 0, [float(x) for x in corr.ravel()]))
     if cfg.get('loci', 1) == 2:
-        out.append(('loci.corr', 0, float(th.loci.corr[0, 1])))
+        lv = [float(th.loci[i].var) for i in (0, 1)]
+        lm = [float(th.loci[i].mean) for i in (0, 1)]
+        ok = all(v > 1e-9 * (abs(v) + m * m) for v, m in zip(lv, lm))
+        out.append(('loci.corr', 0, float(th.loci.corr[0, 1]) if ok else float('nan')))
     return out
 
 
-def compare(ctx, cfg, c, base, st, base_coal):
+def far_horizon_m3(pg, cfg, c):
+    """raw third moment of the tree height at scale 1 and at scale c (divided by c^3), both with an explicit end time 64 times
+    the horizon the code chose for itself; None if a warning was logged"""
+    out = []
+    for cc in (1.0, c):
+        sc = scale_cfg(cfg, cc)
+        with C.LogCapture() as lc:
+            T = float(conv.make_coalescent(pg, sc).tree_height.t_max) * 64
+            v = float(conv.make_coalescent(pg, dict(sc, end_time=T)).tree_height.moment(3, center=False)) / cc ** 3
+        if lc.records:
+            return None
+        out.append(v)
+    return out
+
+
+def compare(ctx, cfg, c, base, st, base_coal, pg=None):
     for (name, k, v0), (_, _, v) in zip(base, st):
         if name == 'q50':
             # quantile() promises F(b) - F(a) < precision = 1e-5 for its bracketing interval, nothing about the width of
@@ -78,12 +103,25 @@ def compare(ctx, cfg, c, base, st, base_coal):
         a = np.array(v0, dtype=float).ravel()
         b = np.array(v, dtype=float).ravel() / (c ** k)
         tol = 1e-9
+        # a central moment is a difference of raw moments: "relative 1e-9" refers to the raw scale mean^k (a variance that is
+        # exactly 0 - e.g. a height truncated before any coalescence is possible - comes out as +-1e-16)
+        means = {n_: float(np.max(np.abs(np.array(x_, dtype=float)))) for n_, k_, x_ in base if k_ == 1 and n_.endswith('.mean')}
+        floor = tol * means.get(name.split('.')[0] + '.mean', 0.0) ** k if k >= 2 and not name.endswith('.m3') else 0.0
         if name.endswith('corr') or name == 'cdf':
-            bad = np.abs(a - b) > 1e-9
+            bad = np.abs(a - b) > 1e-9          # NaN (undefined correlation, see stats) compares False: not compared
         else:
-            bad = np.abs(a - b) > tol * np.maximum(np.abs(a), np.abs(b)) + 1e-300
+            bad = np.abs(a - b) > tol * np.maximum(np.abs(a), np.abs(b)) + floor + 1e-300
         if bad.any():
-            ctx.violation(f'rescale:{name}', cfg=cfg, scale=c, order=k, base=v0, scaled=v, expected_ratio=c ** k)
+            sig = f'rescale:{name}'
+            extra = {}
+            if name == 'th.m3' and cfg.get('end_time') is None and pg is not None:
+                # attribute the failure: the default horizon is chosen from the probability mass alone (P(T <= t_max) >= p_absorption),
+                # which does not bound the mass of t^3 beyond it; with an explicit far horizon on both sides the law must hold
+                far = far_horizon_m3(pg, cfg, c)
+                extra = dict(far_horizon=far)
+                if far is not None and abs(far[0] - far[1]) <= 1e-9 * max(abs(far[0]), abs(far[1])):
+                    sig = 'rescale:th.m3:default-horizon-tail'
+            ctx.violation(sig, cfg=cfg, scale=c, order=k, base=v0, scaled=v, expected_ratio=c ** k, **extra)
 
 
 def one(ctx, i):
@@ -123,7 +161,7 @@ def one(ctx, i):
         if base is None:
             base, base_coal = st, coal
             continue
-        compare(ctx, cfg, c, base, st, base_coal)
+        compare(ctx, cfg, c, base, st, base_coal, pg)
     ctx.case(dict(cfg=cfg, scales=scales), gen.cfg_key(cfg) if used >= 2 else None)
     ctx.count(cfg['model'][0])
     # regularisation off changes nothing in the moderate regime
@@ -135,7 +173,8 @@ def one(ctx, i):
                      (float(on.total_branch_length.moment(3, center=False)), float(off.total_branch_length.moment(3, center=False)))]
         if not lc.records:
             for a, b in pairs:
-                if not C.close(a, b, 1e-9):
+                # absolute floor on the raw scale (see compare): the pairs are mean, variance, raw third moment
+                if not C.close(a, b, 1e-9, 1e-9 * pairs[0][0] ** 2):
                     ctx.violation('regularize-off', cfg=cfg, regularized=a, unregularized=b)
             ctx.count('regularize-compared')
     # the model at an extreme scale (fixed point arithmetic has no conditioning problem)
@@ -157,9 +196,30 @@ def one(ctx, i):
                 ctx.count('model-at-extreme-scale')
 
 
+# the input on which the known finding `rescale:th.m3:default-horizon-tail` (known_findings.json) was first observed; it is
+# evaluated in every run, so the finding is exercised (and printed) on every run
+KNOWN_TAIL_CFG = dict(
+    n={'a': 4, 'B': 0}, model=('dirac', 0.75, 4.0, True), loci=1, epochs=[
+        dict(start=0.0, sizes={'a': 0.5, 'B': 2.0}, mig={('a', 'B'): 0.0, ('B', 'a'): 0.5}),
+        dict(start=1.0, sizes={'a': 2.0, 'B': 2.0}, mig={('a', 'B'): 0.125, ('B', 'a'): 1.0}),
+        dict(start=1.25, sizes={'a': 1.0, 'B': 2.0}, mig={('a', 'B'): 0.125, ('B', 'a'): 0.125})])
+
+
+def known_case(ctx, _):
+    pg = C.import_phasegen()
+    cfg = KNOWN_TAIL_CFG
+    ctx.case(dict(cfg=cfg, scales=[1.0, 1e4], family='known-finding-regression'), 'known-tail')
+    bc = conv.make_coalescent(pg, cfg)
+    with C.LogCapture():
+        a = stats(pg, bc, cfg, 1.0)
+        b = stats(pg, conv.make_coalescent(pg, scale_cfg(cfg, 1e4)), cfg, 1e4)
+    compare(ctx, cfg, 1e4, a, b, bc, pg)
+
+
 def run(ctx):
     import check
     check.pmap(ctx, 'props.c09', 'one', list(range(100 if ctx.quick else 400)), case_timeout=240 if ctx.quick else 1200)
+    check.pmap(ctx, 'props.c09', 'known_case', [0], case_timeout=240)
 
 
 def replay(ctx, payload):
@@ -171,4 +231,4 @@ def replay(ctx, payload):
         bc = conv.make_coalescent(pg, cfg)
         a = stats(pg, bc, cfg, 1.0)
         b = stats(pg, conv.make_coalescent(pg, scale_cfg(cfg, c)), cfg, c)
-        compare(ctx, cfg, c, a, b, bc)
+        compare(ctx, cfg, c, a, b, bc, pg)
